@@ -77,6 +77,16 @@ func validateJSONPatches(patches []byte) error {
 			if err := validateJSONPointer(from); err != nil {
 				return err
 			}
+
+			// RFC 6902: the from location must not be a proper prefix of the path location
+			// (copying a value into itself makes the patch library build a cyclic document)
+			if strings.HasPrefix(path, from+"/") {
+				return fmt.Errorf("%s: from cannot be a prefix of path", patch.JSONPatch)
+			}
+		}
+
+		if err := validateJSONPatchValue(p); err != nil {
+			return err
 		}
 	}
 
@@ -90,6 +100,28 @@ func validateJSONPointer(pointer string) error {
 
 	if strings.HasPrefix(pointer, "/"+document.PublicKeyProperty) {
 		return fmt.Errorf("%s: cannot modify public keys", patch.JSONPatch)
+	}
+
+	return nil
+}
+
+// validateJSONPatchValue makes sure that operations that need a value (RFC 6902: add, replace, test) have one.
+func validateJSONPatchValue(p map[string]*json.RawMessage) error {
+	opMsg, ok := p["op"]
+	if !ok || opMsg == nil {
+		return fmt.Errorf("%s: op not found", patch.JSONPatch)
+	}
+
+	var op string
+	if err := json.Unmarshal(*opMsg, &op); err != nil {
+		return fmt.Errorf("%s: invalid op", patch.JSONPatch)
+	}
+
+	switch op {
+	case "add", "replace", "test":
+		if _, ok := p["value"]; !ok {
+			return fmt.Errorf("%s: value not found for %s operation", patch.JSONPatch, op)
+		}
 	}
 
 	return nil
